@@ -33,7 +33,7 @@ def run(res, tier, seed):
     once = [(N, mask, work) for N in (2, 3, 4) for mask, work in ((0, 0), (1, 2), (3, 0), (5, 2), (2, 1))]
     if thorough:
         once += [(N, mask, work) for N in (5, 6, 8) for mask, work in ((0, 2), (1, 0), (7, 1))]
-    ets = [(N, k) for N in (2, 3, 5) for k in ('ets', 'etskey', 'comb')] + ([(N, k) for N in (8, 9, 12) for k in ('ets', 'etskey', 'comb')] if thorough else [])
+    ets = [(N, k) for N in (2, 3, 5) for k in ('ets', 'etskey', 'comb')] + [(N, k) for N in (6, 9) for k in ('ets', 'comb')]      # 6 / 9 first accesses at once: the slot table doubles while smaller tables are being published + ([(N, k) for N in (8, 9, 12) for k in ('ets', 'etskey', 'comb')] if thorough else [])
     cmds = []; tfs = []; kinds = []
     for k, (N, mask, work) in enumerate(once):
         tf = os.path.join(vlib.BUILD, 'traces', 'c19-once-%d-%d.ndjson' % (os.getpid(), k)); tfs.append(tf); kinds.append('once')
